@@ -112,6 +112,20 @@ def run(m, chk):
         return isinstance(e, ast.Return) and isinstance(e.value, ast.Constant) and e.value.value is val
 
     body = [s_ for s_ in nfi.node.body if not (isinstance(s_, ast.Expr) and isinstance(s_.value, ast.Constant))]
+    # `equal = self.__eq__(obj); return not equal`: a single-use local is folded back into the return
+    while len(body) >= 2 and isinstance(body[0], ast.Assign) and len(body[0].targets) == 1 and isinstance(body[0].targets[0], ast.Name):
+        nm_, val_ = body[0].targets[0].id, body[0].value
+        uses_ = [x for s_ in body[1:] for x in ast.walk(s_) if isinstance(x, ast.Name) and x.id == nm_]
+        if len(uses_) != 1:
+            break
+
+        class _Sub(ast.NodeTransformer):
+            def visit_Name(self, n_):
+                return val_ if n_.id == nm_ and isinstance(n_.ctx, ast.Load) else n_
+
+        import copy as _copy
+
+        body = [_Sub().visit(_copy.deepcopy(s_)) for s_ in body[1:]]
     shape = False
     if len(body) == 1 and isinstance(body[0], ast.Return) and isinstance(body[0].value, ast.UnaryOp) and isinstance(body[0].value.op, ast.Not) and is_eq_call(body[0].value.operand):
         shape = True  # return not self.__eq__(obj)
